@@ -13,9 +13,15 @@
 #include "corecel/grid/FindInterp.hh"
 #include "corecel/grid/Interpolator.hh"
 #include "corecel/grid/NonuniformGrid.hh"
+#include "corecel/grid/TwodGridCalculator.hh"
+#include "corecel/grid/TwodGridData.hh"
+#include "corecel/grid/TwodSubgridCalculator.hh"
 #include "corecel/grid/UniformGrid.hh"
 #include "corecel/grid/UniformGridData.hh"
 #include "corecel/math/Algorithms.hh"
+#include "corecel/cont/Span.hh"
+#include "orange/OrangeData.hh"
+#include "orange/univ/detail/RaggedRightIndexer.hh"
 
 #include "vjson.hh"
 
@@ -454,6 +460,205 @@ void mode_grid(unsigned seed, int count, std::string const& out)
         w(rec);
     }
 }
+
+//! Ragged-right indexers: every flat index of every offsets array
+template<size_type N>
+void ragged(verif::NdjsonWriter& w, std::vector<int> const& sizes)
+{
+    Array<size_type, N> sz;
+    for (size_type i = 0; i < N; ++i)
+        sz[i] = size_type(sizes[i]);
+    auto rrd = RaggedRightIndexerData<N>::from_sizes(sz);
+    celeritas::detail::RaggedRightIndexer<N> to_flat(rrd);
+    celeritas::detail::RaggedRightInverseIndexer<N> to_coords(rrd);
+    json rec;
+    rec["e"] = "Ragged";
+    json off = json::array();
+    for (size_type i = 0; i <= N; ++i)
+        off.push_back(int(rrd.offsets[i]));
+    rec["offsets"] = off;
+    rec["sizes"] = sizes;
+    json map = json::array();
+    for (size_type k = 0; k < rrd.offsets[N]; ++k)
+    {
+        auto c = to_coords(k);
+        map.push_back({{"i", int(k)}, {"c", {int(c[0]), int(c[1])}}, {"back", int(to_flat(c))}});
+    }
+    rec["map"] = map;
+    w(rec);
+}
+
+template<class S>
+json span_items(S const& s)
+{
+    json r = json::array();
+    for (auto v : s)
+        r.push_back(v);
+    return r;
+}
+
+//! Anchored utilities not reached by mode_misc: ragged indexers, spans, 2-D grids, float helpers
+void mode_misc2(unsigned seed, std::string const& out)
+{
+    verif::NdjsonWriter w(out);
+    std::mt19937_64 rng(seed);
+    // ragged-right indexers (row sizes >= 1: precondition of from_sizes)
+    for (int a = 1; a <= 4; ++a)
+    {
+        ragged<1>(w, {a});
+        for (int b = 1; b <= 4; ++b)
+        {
+            ragged<2>(w, {a, b});
+            for (int c = 1; c <= 3; ++c)
+            {
+                ragged<3>(w, {a, b, c});
+                ragged<5>(w, {c, 2, a, b, 1});
+            }
+        }
+    }
+    // spans (dynamic extent): every (offset, count) of every length
+    for (int n = 0; n <= 6; ++n)
+    {
+        std::vector<int> data(n);
+        std::iota(data.begin(), data.end(), 10);
+        Span<int> s = make_span(data);
+        for (int o = 0; o <= n; ++o)
+        {
+            json rec{{"e", "Span"}, {"n", n}, {"off", o}, {"size", int(s.size())}, {"empty", s.empty()}};
+            rec["rest"] = span_items(s.subspan(o));
+            rec["first"] = span_items(s.first(o));
+            rec["last"] = span_items(s.last(o));
+            json subs = json::array();
+            for (int c = 0; o + c <= n; ++c)
+                subs.push_back(span_items(s.subspan(o, c)));
+            rec["subs"] = subs;
+            if (n > 0)
+            {
+                rec["front"] = s.front();
+                rec["back"] = s.back();
+            }
+            w(rec);
+        }
+    }
+    {
+        // static extents
+        Array<int, 5> arr{10, 11, 12, 13, 14};
+        auto s = make_span(arr);
+        w({{"e", "SpanStatic"}, {"n", 5}, {"first2", span_items(s.first<2>())},
+           {"last2", span_items(s.last<2>())}, {"sub13", span_items(s.subspan<1, 3>())},
+           {"rest2", span_items(s.subspan<2>())}, {"first0", span_items(s.first<0>())},
+           {"last5", span_items(s.last<5>())}, {"arr", span_items(make_array(s))}});
+    }
+    // bilinear interpolation on 2-D grids: integer knots with power-of-two widths, integer
+    // values, queries at every quarter point of every cell => all arithmetic is exact
+    for (int g = 0; g < 60; ++g)
+    {
+        int nx = 2 + int(rng() % 3), ny = 2 + int(rng() % 4);
+        std::vector<double> xs(nx), ys(ny);
+        std::vector<int> wx(nx - 1), wy(ny - 1);
+        xs[0] = double(int(rng() % 9) - 4);
+        ys[0] = double(int(rng() % 9) - 4);
+        for (int i = 1; i < nx; ++i)
+        {
+            wx[i - 1] = 1 << (rng() % 3);
+            xs[i] = xs[i - 1] + wx[i - 1];
+        }
+        for (int i = 1; i < ny; ++i)
+        {
+            wy[i - 1] = 1 << (rng() % 3);
+            ys[i] = ys[i - 1] + wy[i - 1];
+        }
+        std::vector<double> vals(nx * ny);
+        json vj = json::array();
+        for (int ix = 0; ix < nx; ++ix)
+        {
+            json row = json::array();
+            for (int iy = 0; iy < ny; ++iy)
+            {
+                int v = (g % 3 == 0) ? (7 * ix * ix + 3 * iy - 2 * ix * iy)
+                                     : int(rng() % 41) - 20;
+                vals[ix * ny + iy] = v;
+                row.push_back(v);
+            }
+            vj.push_back(row);
+        }
+        Collection<double, Ownership::value, MemSpace::host> storage;
+        TwodGridData gd;
+        {
+            auto build = make_builder(&storage);
+            // filler so that no range starts at offset 0
+            std::vector<double> filler(1 + g % 4, 1e6);
+            build.insert_back(filler.begin(), filler.end());
+            gd.x = build.insert_back(xs.begin(), xs.end());
+            build.insert_back(filler.begin(), filler.end());
+            gd.y = build.insert_back(ys.begin(), ys.end());
+            build.insert_back(filler.begin(), filler.end());
+            gd.values = build.insert_back(vals.begin(), vals.end());
+            build.insert_back(filler.begin(), filler.end());
+        }
+        Collection<double, Ownership::const_reference, MemSpace::host> ref;
+        ref = storage;
+        TwodGridCalculator calc(gd, ref);
+        json rec;
+        rec["e"] = "Twod";
+        json xj = json::array(), yj = json::array();
+        for (double x : xs)
+            xj.push_back(int(x));
+        for (double y : ys)
+            yj.push_back(int(y));
+        rec["x"] = xj;
+        rec["y"] = yj;
+        rec["v"] = vj;
+        json qs = json::array();
+        for (int ix = 0; ix + 1 < nx; ++ix)
+            for (int kx = 0; kx < 4; ++kx)
+                for (int iy = 0; iy + 1 < ny; ++iy)
+                    for (int ky = 0; ky < 4; ++ky)
+                    {
+                        double x = xs[ix] + wx[ix] * 0.25 * kx;
+                        double y = ys[iy] + wy[iy] * 0.25 * ky;
+                        double r = calc({x, y});
+                        auto sub = calc(x);
+                        double r2 = sub(y);
+                        double r16 = r * 16;
+                        qs.push_back({{"x4", int(std::lround(4 * x))},
+                                      {"y4", int(std::lround(4 * y))},
+                                      {"r16", int(std::lround(r16))},
+                                      {"exact", r16 == std::round(r16)},
+                                      {"same", r == r2},
+                                      {"xi", int(sub.x_index())},
+                                      {"xf4", int(std::lround(4 * sub.x_fraction()))},
+                                      {"xfexact", 4 * sub.x_fraction() == std::round(4 * sub.x_fraction())}});
+                    }
+        rec["qs"] = qs;
+        w(rec);
+    }
+    // floating-point helpers on inputs where the exact result is representable
+    for (int a = -6; a <= 6; ++a)
+        for (int b = -6; b <= 6; ++b)
+        {
+            w({{"e", "Diffsq"}, {"a", a}, {"b", b}, {"r", int(celeritas::diffsq(double(a), double(b)))},
+               {"ri", celeritas::diffsq(a, b)}});
+            for (int c : {-3, 0, 5})
+                w({{"e", "Fma"}, {"a", a}, {"b", b}, {"c", c},
+                   {"r", int(celeritas::fma(double(a), double(b), double(c)))},
+                   {"ri", celeritas::fma(a, b, c)}});
+        }
+    for (int k = -6; k <= 6; ++k)
+    {
+        // rsqrt(4^k) * 2^k = 1 exactly
+        double r = celeritas::rsqrt(std::ldexp(1.0, 2 * k));
+        float rf = celeritas::rsqrt(std::ldexp(1.0f, 2 * k));
+        w({{"e", "Rsqrt"}, {"k", k}, {"one", std::ldexp(r, k) == 1.0}, {"onef", std::ldexp(rf, k) == 1.0f}});
+    }
+    for (int a = 1; a <= 5; ++a)
+        for (int n = 0; n <= 6; ++n)
+        {
+            double r = celeritas::fastpow(double(a), double(n));
+            w({{"e", "FastPow"}, {"a", a}, {"n", n}, {"r", int(std::lround(r))},
+               {"near", std::fabs(r - std::round(r)) <= 1e-9 * std::fabs(r)}});
+        }
+}
 }  // namespace
 
 int main(int argc, char** argv)
@@ -466,12 +671,14 @@ int main(int argc, char** argv)
                   std::atoi(argv[5]), argv[6]);
     else if (mode == "misc" && argc == 3)
         mode_misc(argv[2]);
+    else if (mode == "misc2" && argc == 4)
+        mode_misc2(std::strtoul(argv[2], nullptr, 10), argv[3]);
     else if (mode == "grid" && argc == 5)
         mode_grid(std::strtoul(argv[2], nullptr, 10), std::atoi(argv[3]), argv[4]);
     else
     {
         std::cerr << "usage: valgo seq <maxlen> <alphabet> <out> | rand <seed> <n> <maxlen> "
-                     "<alphabet> <out> | misc <out> | grid <seed> <n> <out>\n";
+                     "<alphabet> <out> | misc <out> | misc2 <seed> <out> | grid <seed> <n> <out>\n";
         return 2;
     }
     return 0;
